@@ -1,33 +1,35 @@
 #!/bin/bash
-# usage: tools/seed_eval.sh <seed dir, e.g. /tmp/seed-C15/A> <name under /verif/seeded> <check id> [tier]
+# usage: tools/seed_eval.sh <seed dir, e.g. /tmp/seed-C15/A> <name under $V/seeded> <check id> [tier]
 # Confirms a seeded change (applies cleanly, builds, passes the pinned suite, its demo fails with / passes
-# without the change), stores it under /verif/seeded/<name>, and runs the given check against it.
+# without the change), stores it under $V/seeded/<name>, and runs the given check against it.
 set -u
+V=$(cd "$(dirname "$0")/.." && pwd)
+R="${VERIF_REPO:-/repo}"
 src="$1"; name="$2"; chk="$3"; tier="${4:-quick}"
 wt=/tmp/wt-eval-$$
 export GOPROXY=off
-git -C /repo worktree add --detach "$wt" HEAD >/dev/null 2>&1 || exit 2
-cleanup() { git -C /repo worktree remove --force "$wt" >/dev/null 2>&1; }
+git -C "$R" worktree add --detach "$wt" HEAD >/dev/null 2>&1 || exit 2
+cleanup() { git -C "$R" worktree remove --force "$wt" >/dev/null 2>&1; }
 trap cleanup EXIT
-echo "== demo on the unchanged tree"; (cd "$src/demo" && bash ./run.sh "$wt" >/tmp/seed-eval-clean.log 2>&1); clean=$?; echo "exit $clean"
+echo "== demo on the unchanged tree"; (cd "$src/demo" && bash ./run.sh "$wt" >/tmp/seed-eval-clean-$$.log 2>&1); clean=$?; echo "exit $clean"
 if ! git -C "$wt" apply "$src/patch.diff"; then echo "PATCH DOES NOT APPLY"; exit 2; fi
 echo "== build + pinned suite with the change"
 (cd "$wt" && go build ./... && go test -vet=off -count=1 ./... 2>&1 | grep -v "no test files" | grep -v "^ok" | head -20); suite=${PIPESTATUS[0]}
-echo "== demo with the change"; (cd "$src/demo" && bash ./run.sh "$wt" >/tmp/seed-eval-mut.log 2>&1); mut=$?; echo "exit $mut"
+echo "== demo with the change"; (cd "$src/demo" && bash ./run.sh "$wt" >/tmp/seed-eval-mut-$$.log 2>&1); mut=$?; echo "exit $mut"
 cleanup; trap - EXIT
-mkdir -p /verif/seeded/$name && cp "$src/patch.diff" /verif/seeded/$name/ && rm -rf /verif/seeded/$name/demo && cp -r "$src/demo" /verif/seeded/$name/demo && cp "$src/meta.json" /verif/seeded/$name/meta.agent.json
+mkdir -p $V/seeded/$name && cp "$src/patch.diff" $V/seeded/$name/ && rm -rf $V/seeded/$name/demo && cp -r "$src/demo" $V/seeded/$name/demo && cp "$src/meta.json" $V/seeded/$name/meta.agent.json
 echo "== check $chk $tier with the change applied to /repo"
-out=$(cd /verif && tools/try_patch.sh "$src/patch.diff" "$chk" "$tier" 2>&1 | tail -4)
+out=$(cd $V && tools/try_patch.sh "$src/patch.diff" "$chk" "$tier" 2>&1 | tail -4)
 echo "$out"
-python3 - "$name" "$chk" "$tier" "$clean" "$mut" <<PY
+python3 - "$name" "$chk" "$tier" "$clean" "$mut" "$V" <<PY
 import json,sys
-name,chk,tier,clean,mut=sys.argv[1:6]
+name,chk,tier,clean,mut,V=sys.argv[1:7]
 out='''$out'''
-agent=json.load(open(f'/verif/seeded/{name}/meta.agent.json'))
+agent=json.load(open(f'$V/seeded/{name}/meta.agent.json'))
 meta={"property": agent.get("property"), "summary": agent.get("summary"), "needs_to_manifest": agent.get("needs_to_manifest"),
  "confirmed": {"demo_exit_unchanged_tree": int(clean), "demo_exit_with_change": int(mut), "suite_with_change": "go build ./... && go test -vet=off -count=1 ./... : no failing package"},
  "ran": [f"tools/seed_eval.sh (scratch worktree of /repo HEAD, removed afterwards)", f"tools/try_patch.sh patch.diff {chk} {tier}"],
  "check_result": {"check": f"{chk} {tier}", "caught": "VIOLATION" in out, "output_tail": out.strip().split("\\n")[-3:]}}
-json.dump(meta, open(f'/verif/seeded/{name}/meta.json','w'), indent=1)
+json.dump(meta, open(f'$V/seeded/{name}/meta.json','w'), indent=1)
 print("caught:", meta["check_result"]["caught"])
 PY
